@@ -192,8 +192,20 @@ theorem touches_opChmod {P} (p : Bytes) (m : Nat) (s : DState) (h : P (absPath s
     Touches P s (run (opChmod p m) s).2 := by
   rw [run_opChmod]; exact touches_doOp _ s (by simpa [FsOp.paths] using h)
 
-/-- opening the reject file (`openRejects`) creates that file, or nothing -/
-theorem touches_openRejects {P} (p : Bytes) (s : DState) (h : P (absPath s p)) : Touches P s (run (openRejects p) s).2 := by
+/-- `make_way_for` removes that name, or nothing -/
+theorem touches_makeWayFor {P} (p : Bytes) (s : DState) (h : P (absPath s p)) :
+    Touches P s (run (makeWayFor p) s).2 := by
+  unfold makeWayFor
+  refine touches_bind (by exact Touches.refl s) fun b s' hs' => ?_
+  refine touches_bind (by exact Touches.refl s') fun b2 s2 hs2 => ?_
+  split
+  · rw [run_bind_ok (run_get s2)]
+    exact touches_doOp _ s2 (by simpa [FsOp.paths, absPath_cwd hs2.1, absPath_cwd hs'.1] using h)
+  · exact Touches.refl s2
+
+/-- opening the reject file (`openRejects`) creates that file (in the place of a symbolic link or regular file of that name), or nothing -/
+theorem touches_openRejects {P} (o : Options) (p : Bytes) (s : DState) (h : P (absPath s p)) :
+    Touches P s (run (openRejects o p) s).2 := by
   unfold openRejects
   rw [run_bind_ok (run_get s)]
   split
@@ -202,7 +214,12 @@ theorem touches_openRejects {P} (p : Bytes) (s : DState) (h : P (absPath s p)) :
     · exact touches_opCreat p s h
     · exact Touches.refl s
   · rw [run_bind_ok (run_set _ s)]
-    exact (Touches.of_eq rfl rfl).trans (touches_opCreat p _ h)
+    refine (Touches.of_eq rfl rfl).trans ?_
+    dsimp only
+    split
+    · refine touches_bind (touches_makeWayFor p _ h) fun _ s' hs' => ?_
+      exact touches_opCreat p s' (by rw [absPath_cwd hs'.1]; exact h)
+    · exact touches_opCreat p _ h
 
 /-- `ensure_parent_directories p` only makes directories among the prefixes of `p` -/
 theorem touches_ensureParentDirs (p : Bytes) (s : DState) :
